@@ -1,7 +1,282 @@
 import BiotiteModel.Model.C08
+import BiotiteModel.Proofs.C08
 import BiotiteModel.Gen.C08
+/-!
+# C08 — property theorems (optimal pairwise alignment returns the true optimum)
+
+`optLin / optSemi / optLocal` are the recurrences over prefix lengths (`Rec.val`, structural recursion);
+`fillLin` is the table filled row by row like `_fill_align_table`; `optT` reads the reported score off the
+table.  All theorems hold for every matrix (any sign, asymmetric), every sequence pair, no length bound;
+`g ≤ 0` is needed only where stated.  Int32 = ℤ is the `NoOverflow` assumption of the correspondence.
+
+Proved: linear gap penalties in all three modes (upper bound, attainment, table refinement, checker
+soundness).  Partial (see notes/C08.md): the affine three-table recurrence is tied to the table
+(`C08_table_aff`) and the checker establishes validity / honest score / `≤ optAff` per output, but
+`optAff = max over non-abutting alignments` and the traceback theorems are not proved here.
+-/
 namespace BiotiteModel.C08
 
-theorem C08_placeholder : max3 1 2 3 = 3 := by decide
+/-! ## Upper bounds: no valid alignment scores above the recurrence -/
+
+/-- global: every end-to-end alignment scores at most `optLin`. -/
+theorem C08_upper_lin (M : Mat) (g : Int) (a b : Seq) (aln : Aln) (h : ValidGlobal a b aln) :
+    scoreLin M g a b aln ≤ optLin M g a b := by
+  have := upper_gen _ _ (step_global M g a b) aln (0, 0) _ h
+  rw [← scoreLin_eq_pos] at this
+  simpa [optLin, Rec.val_zero, borderG, gapRun] using this
+
+/-- semi-global (`terminal_penalty=False`): every end-to-end alignment scores at most `optSemi`. -/
+theorem C08_upper_semi (M : Mat) (g : Int) (a b : Seq) (aln : Aln) (h : ValidGlobal a b aln) :
+    scoreSemiPos M g a b (0, 0) aln ≤ optSemi M g a b := by
+  have := upper_gen _ _ (step_semi M g a b) aln (0, 0) _ h
+  rw [← scoreSemiPos_eq_pos] at this
+  simpa [optSemi, Rec.val_zero, borderS] using this
+
+theorem local_cell_le_opt (M : Mat) (g : Int) (a b : Seq) (i j : Nat) (hi : i ≤ a.length) (hj : j ≤ b.length) :
+    (linRec .local M g a b).val i j ≤ optLocal M g a b := by
+  apply listMax_ge_mem
+  rw [List.mem_flatMap]
+  exact ⟨i, List.mem_range.mpr (by omega), List.mem_map.mpr ⟨j, List.mem_range.mpr (by omega), rfl⟩⟩
+
+/-- local: every contiguous alignment of any two substrings scores at most `optLocal` (needs `g ≤ 0`). -/
+theorem C08_upper_local (M : Mat) (g : Int) (hg : g ≤ 0) (a b : Seq) (aln : Aln) (h : ValidLocal a b aln) :
+    scoreLin M g a b aln ≤ optLocal M g a b := by
+  obtain ⟨i0, j0, i1, j1, hw, hi, hj⟩ := h
+  have h1 := upper_gen _ _ (step_local M g hg a b) aln (i0, j0) _ hw
+  rw [← scoreLin_eq_pos] at h1
+  have h2 := local_nonneg M g a b i0 j0
+  have h3 := local_cell_le_opt M g a b i1 j1 hi hj
+  simp only at h1
+  omega
+
+/-! ## Attainment: some valid alignment reaches the recurrence -/
+
+theorem C08_attained_lin (M : Mat) (g : Int) (a b : Seq) :
+    ∃ aln, ValidGlobal a b aln ∧ scoreLin M g a b aln = optLin M g a b := by
+  have hcell : ∀ i j, ((fun p : Nat × Nat => p = (0, 0)) (i, j) ∧ (linRec .global M g a b).val i j = 0) ∨
+      ∃ p c, stepPos p c = some (i, j) ∧
+        (linRec .global M g a b).val i j = (linRec .global M g a b).val p.1 p.2 + costLin M g a b p c := by
+    intro i j
+    cases i with
+    | zero =>
+      cases j with
+      | zero => left; simp [Rec.val_zero, borderG, gapRun]
+      | succ j =>
+        right; refine ⟨(0, j), .gapA j, by simp [stepPos], ?_⟩
+        simp [Rec.val_zero, borderG, gapRun_succ, costLin, colScoreLin]
+    | succ i =>
+      cases j with
+      | zero =>
+        right; refine ⟨(i, 0), .gapB i, by simp [stepPos], ?_⟩
+        cases i <;> simp [Rec.val_zero, Rec.val_succ_zero, borderG, gapRun_succ, costLin, colScoreLin]
+      | succ j =>
+        right
+        rw [Rec.val_succ_succ, cellG]
+        rcases max3_cases ((linRec .global M g a b).val i j + sub M a b i j)
+          ((linRec .global M g a b).val (i + 1) j + g) ((linRec .global M g a b).val i (j + 1) + g) with h | h | h
+        · exact ⟨(i, j), .both i j, by simp [stepPos], by simp [h, costLin, colScoreLin]⟩
+        · exact ⟨(i + 1, j), .gapA j, by simp [stepPos], by simp [h, costLin, colScoreLin]⟩
+        · exact ⟨(i, j + 1), .gapB i, by simp [stepPos], by simp [h, costLin, colScoreLin]⟩
+  obtain ⟨p0, aln, hP, hw, hs⟩ := attained_gen ((linRec .global M g a b).val) (costLin M g a b)
+    (fun p => p = (0, 0)) hcell _ a.length b.length rfl
+  subst hP
+  exact ⟨aln, hw, by rw [scoreLin_eq_pos M g a b aln (0, 0), hs]; rfl⟩
+
+theorem C08_attained_semi (M : Mat) (g : Int) (a b : Seq) :
+    ∃ aln, ValidGlobal a b aln ∧ scoreSemiPos M g a b (0, 0) aln = optSemi M g a b := by
+  have hcell : ∀ i j, ((fun p : Nat × Nat => p = (0, 0)) (i, j) ∧ (linRec .semi M g a b).val i j = 0) ∨
+      ∃ p c, stepPos p c = some (i, j) ∧
+        (linRec .semi M g a b).val i j = (linRec .semi M g a b).val p.1 p.2 + costSemi M g a b p c := by
+    intro i j
+    cases i with
+    | zero =>
+      cases j with
+      | zero => left; simp [Rec.val_zero, borderS]
+      | succ j =>
+        right; refine ⟨(0, j), .gapA j, by simp [stepPos], ?_⟩
+        simp [Rec.val_zero, borderS, costSemi]
+    | succ i =>
+      cases j with
+      | zero =>
+        right; refine ⟨(i, 0), .gapB i, by simp [stepPos], ?_⟩
+        cases i <;> simp [Rec.val_zero, Rec.val_succ_zero, borderS, costSemi]
+      | succ j =>
+        right
+        rw [Rec.val_succ_succ, cellS]
+        rcases max3_cases ((linRec .semi M g a b).val i j + sub M a b i j)
+          ((linRec .semi M g a b).val (i + 1) j + (if i + 1 = a.length then 0 else g))
+          ((linRec .semi M g a b).val i (j + 1) + (if j + 1 = b.length then 0 else g)) with h | h | h
+        · exact ⟨(i, j), .both i j, by simp [stepPos], by simp [h, costSemi]⟩
+        · exact ⟨(i + 1, j), .gapA j, by simp [stepPos], by simp [h, costSemi]⟩
+        · exact ⟨(i, j + 1), .gapB i, by simp [stepPos], by simp [h, costSemi]⟩
+  obtain ⟨p0, aln, hP, hw, hs⟩ := attained_gen ((linRec .semi M g a b).val) (costSemi M g a b)
+    (fun p => p = (0, 0)) hcell _ a.length b.length rfl
+  subst hP
+  exact ⟨aln, hw, by rw [scoreSemiPos_eq_pos M g a b aln (0, 0), hs]; rfl⟩
+
+theorem C08_attained_local (M : Mat) (g : Int) (a b : Seq) :
+    ∃ aln, ValidLocal a b aln ∧ scoreLin M g a b aln = optLocal M g a b := by
+  have hcell : ∀ i j, ((fun _ : Nat × Nat => True) (i, j) ∧ (linRec .local M g a b).val i j = 0) ∨
+      ∃ p c, stepPos p c = some (i, j) ∧
+        (linRec .local M g a b).val i j = (linRec .local M g a b).val p.1 p.2 + costLin M g a b p c := by
+    intro i j
+    cases i with
+    | zero => left; simp [Rec.val_zero, borderL]
+    | succ i =>
+      cases j with
+      | zero => left; simp [Rec.val_succ_zero, borderL]
+      | succ j =>
+        rw [Rec.val_succ_succ, cellL]
+        by_cases hv : max3 ((linRec .local M g a b).val i j + sub M a b i j)
+          ((linRec .local M g a b).val (i + 1) j + g) ((linRec .local M g a b).val i (j + 1) + g) ≤ 0
+        · left; simp [hv]
+        · right
+          simp only [hv, if_false]
+          rcases max3_cases ((linRec .local M g a b).val i j + sub M a b i j)
+            ((linRec .local M g a b).val (i + 1) j + g) ((linRec .local M g a b).val i (j + 1) + g) with h | h | h
+          · exact ⟨(i, j), .both i j, by simp [stepPos], by simp [h, costLin, colScoreLin]⟩
+          · exact ⟨(i + 1, j), .gapA j, by simp [stepPos], by simp [h, costLin, colScoreLin]⟩
+          · exact ⟨(i, j + 1), .gapB i, by simp [stepPos], by simp [h, costLin, colScoreLin]⟩
+  rcases listMax_mem 0 ((List.range (a.length + 1)).flatMap fun i =>
+      (List.range (b.length + 1)).map ((linRec .local M g a b).val i)) with h0 | hm
+  · exact ⟨[], ⟨0, 0, 0, 0, rfl, Nat.zero_le _, Nat.zero_le _⟩, by simp [scoreLin, optLocal, h0]⟩
+  · rw [List.mem_flatMap] at hm
+    obtain ⟨i, hi, hm⟩ := hm
+    rw [List.mem_map] at hm
+    obtain ⟨j, hj, hv⟩ := hm
+    obtain ⟨p0, aln, _, hw, hs⟩ := attained_gen ((linRec .local M g a b).val) (costLin M g a b)
+      (fun _ => True) hcell _ i j rfl
+    refine ⟨aln, ⟨p0.1, p0.2, i, j, hw, ?_, ?_⟩, ?_⟩
+    · have := List.mem_range.mp hi; omega
+    · have := List.mem_range.mp hj; omega
+    · rw [scoreLin_eq_pos M g a b aln p0, hs, hv]; rfl
+
+/-! ## Table refinement: the table `_fill_align_table` builds is the recurrence -/
+
+/-- every cell of the row-by-row table equals the recurrence at the prefix lengths `(i, j)`. -/
+theorem C08_table_lin (mode : Mode) (M : Mat) (g : Int) (a b : Seq) (i j : Nat)
+    (hi : i ≤ a.length) (hj : j ≤ b.length) :
+    ((fillLin mode M g a b)[i]?.bind (·[j]?)) = some ((linRec mode M g a b).val i j) :=
+  Rec.table_get _ _ _ i j hi hj
+
+/-- the score read off the table (last cell, or the table maximum for local) is the optimum. -/
+theorem C08_reported_lin (mode : Mode) (M : Mat) (g : Int) (a b : Seq) :
+    optLinT mode M g a b = opt mode M g a b := by
+  cases mode with
+  | global => simp [optLinT, opt, optLin, Rec.row_getLast]
+  | semi => simp [optLinT, opt, optSemi, Rec.row_getLast]
+  | «local» => simp [optLinT, opt, optLocal, fillLin, Rec.table_flatten]
+
+/-- affine: the three tables filled row by row are the three-state recurrence (`none` = −∞). -/
+theorem C08_table_aff (mode : Mode) (M : Mat) (go ge : Int) (a b : Seq) (i j : Nat)
+    (hi : i ≤ a.length) (hj : j ≤ b.length) :
+    ((fillAff mode M go ge a b)[i]?.bind (·[j]?)) = some ((affRec mode M go ge a b).val i j) :=
+  Rec.table_get _ _ _ i j hi hj
+
+theorem C08_reported_aff (mode : Mode) (M : Mat) (go ge : Int) (a b : Seq) :
+    optAffT mode M go ge a b = optAff mode M go ge a b := by
+  cases mode with
+  | global => simp [optAffT, optAff, Rec.row_getLast]
+  | semi => simp [optAffT, optAff, Rec.row_getLast]
+  | «local» => simp [optAffT, optAff, fillAff, Rec.table_flatten]
+
+/-! ## The checker run on every actual output -/
+
+theorem validB_sound (mode : Mode) (a b : Seq) (aln : Aln) (h : validB mode a b aln = true) :
+    Valid mode a b aln := by
+  cases mode with
+  | global => simpa [validB, Valid, ValidGlobal] using h
+  | semi => simpa [validB, Valid, ValidGlobal] using h
+  | «local» =>
+    simp only [validB] at h
+    split at h
+    · rename_i i1 j1 hw
+      simp only [Bool.and_eq_true, decide_eq_true_eq] at h
+      exact ⟨_, _, i1, j1, hw, h.1, h.2⟩
+    · simp at h
+
+/-- Linear penalties: a trace the checker accepts is a valid alignment of the two inputs whose public score
+(`align.score`) is the reported score, and the reported score is at most the optimum. -/
+theorem C08_checker_sound_lin (a b : Seq) (M : Mat) (g : Int) (mode : Mode) (trace : List (Int × Int)) (sc : Int)
+    (h : checkAlignment a b M (.lin g) mode trace sc = true) :
+    ∃ aln, traceToAln trace = some aln ∧ Valid mode a b aln ∧ score mode (.lin g) M a b aln = sc ∧
+      (mode = .semi → scoreSemiPos M g a b (0, 0) aln = sc) ∧ sc ≤ opt mode M g a b := by
+  unfold checkAlignment at h
+  split at h
+  · rename_i aln ht
+    refine ⟨aln, ht, ?_⟩
+    simp only [checkAln, Bool.and_eq_true, decide_eq_true_eq] at h
+    obtain ⟨⟨⟨hv, hs⟩, hp⟩, hu⟩ := h
+    refine ⟨validB_sound _ _ _ _ hv, hs, ?_, ?_⟩
+    · intro hm; subst hm; simpa using hp
+    · rw [← C08_reported_lin]; exact hu
+  · simp at h
+
+/-- Corollary used by the correspondence: an accepted non-semi trace scores `scoreLin = sc`. -/
+theorem C08_checker_score_lin (a b : Seq) (M : Mat) (g : Int) (mode : Mode) (hm : mode ≠ .semi) (aln : Aln) :
+    score mode (.lin g) M a b aln = scoreLin M g a b aln := by
+  cases mode with
+  | global => exact scorePub_lin M g a b aln
+  | semi => exact absurd rfl hm
+  | «local» => exact scorePub_lin M g a b aln
+
+/-- Affine penalties (partial): an accepted trace is valid, has no abutting gaps, its public score is the
+reported one and that is at most the value of the three-state recurrence `optAff`.  That `optAff` is the
+maximum over all non-abutting alignments is NOT proved (tied by correspondence + enumeration oracle). -/
+theorem C08_checker_sound_aff_partial (a b : Seq) (M : Mat) (go ge : Int) (mode : Mode)
+    (trace : List (Int × Int)) (sc : Int)
+    (h : checkAlignment a b M (.aff go ge) mode trace sc = true) :
+    ∃ aln, traceToAln trace = some aln ∧ Valid mode a b aln ∧ NoAbut aln ∧
+      score mode (.aff go ge) M a b aln = sc ∧ sc ≤ optAff mode M go ge a b := by
+  unfold checkAlignment at h
+  split at h
+  · rename_i aln ht
+    refine ⟨aln, ht, ?_⟩
+    simp only [checkAln, Bool.and_eq_true, decide_eq_true_eq] at h
+    obtain ⟨⟨⟨hv, hs⟩, hp⟩, hu⟩ := h
+    refine ⟨validB_sound _ _ _ _ hv, ?_, hs, ?_⟩
+    · cases mode <;> simpa [NoAbut] using hp
+    · rw [← C08_reported_aff]; exact hu
+  · simp at h
+
+/-- everything `checkAll` accepts: each trace as above, non-empty traces pairwise distinct, at most `max_number`. -/
+theorem C08_checkAll_sound (a b : Seq) (M : Mat) (gap : Gap) (mode : Mode) (mx : Nat)
+    (traces : List (List (Int × Int))) (sc : Int) (h : checkAll a b M gap mode mx traces sc = true) :
+    (∀ t ∈ traces, checkAlignment a b M gap mode t sc = true) ∧ distinctNonEmpty traces = true ∧
+      traces.length ≤ mx := by
+  simp only [checkAll, Bool.and_eq_true, decide_eq_true_eq, List.all_eq_true] at h
+  exact ⟨h.1.1, h.1.2, h.2⟩
+
+/-- Known finding, as modelled: affine + not local + an empty sequence raises IndexError. -/
+theorem C08_affine_empty_defect : raisesIndexError .global (.aff (-2) (-1)) [0, 0] [] = true := by decide
+
+/-! ## Regenerated constants (tracetable.pxd): the trace bits are distinct single bits that fit the table dtype -/
+
+def isPow2 (n : Nat) : Bool := n != 0 && (n &&& (n - 1)) == 0
+
+theorem C08_gen_trace_bits :
+    (Gen.C08.traceLinear.map (·.2)).all isPow2 = true ∧ (Gen.C08.traceLinear.map (·.2)).Nodup ∧
+    (Gen.C08.traceAffine.map (·.2)).all isPow2 = true ∧ (Gen.C08.traceAffine.map (·.2)).Nodup ∧
+    (Gen.C08.traceLinear ++ Gen.C08.traceAffine).all (fun x => x.2 < 2 ^ Gen.C08.traceTableBits) = true ∧
+    (Gen.C08.traceState.map (·.2)).Nodup ∧ Gen.C08.traceLinear.length = 3 ∧ Gen.C08.traceAffine.length = 7 := by
+  decide
+
+/-! ## Non-vacuity -/
+
+/-- `A C` / `- C` : a valid global alignment; the hypotheses of the upper bounds are satisfiable. -/
+example : ValidGlobal [0, 1] [1] [.gapB 0, .both 1 0] := by unfold ValidGlobal; decide
+example : ValidLocal [0, 1, 2] [5, 1] [.both 1 1] := ⟨1, 1, 2, 2, by decide, by decide, by decide⟩
+example : scoreLin (Mat.ofRows [[1, -1], [-1, 1]]) (-2) [0, 1] [1] [.gapB 0, .both 1 0] = -1 := by decide
+example : optLin (Mat.ofRows [[1, -1], [-1, 1]]) (-2) [0, 1] [1] = -1 := by decide
+example : optSemi (Mat.ofRows [[1, -1], [-1, 1]]) (-2) [0, 1] [1] = 1 := by decide
+example : optLocal (Mat.ofRows [[1, -1], [-1, 1]]) (-2) [0, 1] [1] = 1 := by decide
+example : checkAlignment [0, 1] [1] (Mat.ofRows [[1, -1], [-1, 1]]) (.lin (-2)) .global [(0, -1), (1, 0)] (-1) = true := by
+  decide
+example : checkAlignment [0, 1] [1] (Mat.ofRows [[1, -1], [-1, 1]]) (.lin (-2)) .global [(0, 0), (1, -1)] (-3) = true := by
+  decide
+example : checkAlignment [0, 1] [1] (Mat.ofRows [[1, -1], [-1, 1]]) (.lin (-2)) .global [(0, -1), (1, 0)] 0 = false := by
+  decide
+example : checkAlignment [0, 1] [1] (Mat.ofRows [[1, -1], [-1, 1]]) (.aff (-3) (-1)) .semi [(0, -1), (1, 0)] 1 = true := by
+  decide
 
 end BiotiteModel.C08
